@@ -113,8 +113,11 @@ pub trait WalletBackend<'ck, C, K> where C: NodeClient + 'ck, K: Keychain + 'ck 
     fn tx_log_iter<'a>(&'a self) -> (r: VIter<TxLogEntry>)
         ensures enumerates_log(r@, self.state().tx_log), r@ == seq_of_log(self.state().tx_log);
 
-    // the stored transaction file of a slate (LMDBBackend::get_stored_tx is itself a unit, lmdb_stored_tx): any content
-    fn get_stored_tx(&self, uuid: &str) -> (r: Result<Option<Transaction>, Error>);
+    // the stored transaction file of a slate (LMDBBackend::get_stored_tx is itself a unit, lmdb_stored_tx): the file system is
+    // outside WalletState; a successful read returns what the file named `uuid` holds (None: no such file)
+    spec fn stored_file(&self, name: Seq<char>) -> Option<Transaction>;
+    fn get_stored_tx(&self, uuid: &str) -> (r: Result<Option<Transaction>, Error>)
+        ensures r matches Ok(v) ==> v == self.stored_file(uuid@);
 
     fn batch<'a>(&'a mut self, keychain_mask: Option<&SecretKey>) -> (r: Result<Box<dyn WalletOutputBatch<K> + 'a>, Error>)
         ensures
